@@ -1146,6 +1146,15 @@ func (k Keeper) ResetRequestContextsStateAndBatch(ctx sdk.Context) error {
 	k.IterateRequestContexts(
 		ctx,
 		func(requestContextID tmbytes.HexBytes, requestContext types.RequestContext) bool {
+			// a context that has finished (killed, a one-shot that had its batch, or a repeated one that reached its
+			// total) must not come back paused and startable on the new chain
+			if requestContext.State == types.COMPLETED ||
+				(!requestContext.Repeated && requestContext.BatchCounter >= 1) ||
+				(requestContext.Repeated && requestContext.RepeatedTotal > 0 && int64(requestContext.BatchCounter) >= requestContext.RepeatedTotal) {
+				k.DeleteRequestContext(ctx, requestContextID)
+				return false
+			}
+
 			requestContext.State = types.PAUSED
 
 			requestContext.BatchState = types.BATCHCOMPLETED
